@@ -4,7 +4,7 @@ distinct figures per mapping, optional smaps lines on/off, roll-up present / abs
 refused; reference = sums over the mapping list."""
 import itertools
 
-from vf.harness import use_world, outcome, freeze, sample
+from vf.harness import use_world, outcome, freeze, sample, guarded
 from vf.simk.world import World, Mapping, PAGESIZE, SMAPS_KEYS
 
 ID = "C13"
@@ -136,7 +136,7 @@ def worker(chunk):
     w, p = mk_world(seed)
     use_world(w)
     w.logging = False
-    return [run_case(c, (w, p)) for c in cases]
+    return [guarded(run_case, c, (w, p)) for c in cases]
 
 
 def build_cases(thorough):
@@ -196,5 +196,5 @@ def replay(ctx, case):
     c = tuple(case)
     if c[0] == "maps":
         c = (c[0], c[1], c[2], tuple(c[3]), c[4])
-    bad = run_case(c, (w, p))
+    bad = guarded(run_case, c, (w, p))
     return {"violated": bool(bad), "viols": bad}
